@@ -724,8 +724,8 @@ package server
 //@   ensures C13.writer.room: implies(!old(self.closed), writerInv(self.stream.writerBuffer) && self.stream == old(self.stream))
 // C18/C13: a closed connection hands a reply to the connection that owns its client id now, never to itself (the two
 // reply methods call each other: routing a reply to the closing connection itself never returns)
-//@   at call ProcessLockResultCommandLocked assert C18.reply.not-to-itself: ref(serverProtocol) != self
-//@   at call ProcessLockResultCommandLocked assert C13.reply.not-to-itself: ref(serverProtocol) != self
+//@   at call ProcessLockResultCommandLocked assert C18.reply.not-to-itself: !(istype(serverProtocol, *BinaryServerProtocol) && ref(serverProtocol) == self)
+//@   at call ProcessLockResultCommandLocked assert C13.reply.not-to-itself: !(istype(serverProtocol, *BinaryServerProtocol) && ref(serverProtocol) == self)
 //@   at call LoadUint32 assert C14.result.head: resultFrameHead(self.wbuf, command, result, !isnil(data))
 //@   at call LoadUint32 assert C14.result.ids: resultFrameIds(self.wbuf, command)
 //@   at call LoadUint32 assert C14.result.counts: resultFrameCounts(self.wbuf, command, lcount, lrcount)
